@@ -291,6 +291,42 @@ pub fn c04_api_scenario(max_packet: usize) -> Scenario {
     Scenario { name, d: 0, run: Box::new(run) }
 }
 
+
+/// C13 at the endpoints: asymmetric rate limits on either side, a backlog in both directions on a loss-free network; the ceiling of each
+/// direction is min(sender's max_send_rate, receiver's max_receive_rate) as configured, not as whatever the handshake made of it.
+pub fn c13_endpoint_scenario() -> Scenario {
+    let name = "C13.endpoint-ceilings|configs5|cadence20.100|backlog up or down".to_string();
+    let run = move |ch: &mut Chooser| -> ExecResult {
+        // (server send, server receive, client send, client receive)
+        let configs: [(usize, usize, usize, usize); 5] = [(2_000_000, 20_000, 2_000_000, 2_000_000), (2_000_000, 2_000_000, 2_000_000, 20_000), (50_000, 50_000, 10_000, 1_000_000), (1_000_000, 1472, 1_000_000, 3000), (30_000, 2_000_000, 2_000_000, 2_000_000)];
+        let k = ch.free(configs.len());
+        let cad = [20u64, 100][ch.free(2)];
+        // one direction carries the backlog (with one in each direction from a cold start both crawl at about 1 kB/s and no ceiling binds)
+        let up_dir = ch.free(2) == 0;
+        let (ss, sr, cs, cr) = configs[k];
+        let mut cfg = EwCfg::new(1);
+        cfg.server.max_send_rate = ss; cfg.server.max_receive_rate = sr; cfg.clients[0].max_send_rate = cs; cfg.clients[0].max_receive_rate = cr;
+        let c_up = cs.min(sr); let c_down = ss.min(cr);
+        // about 8 s worth of data each way (at least 3 packets), in packets of 1400 bytes
+        let n_up = ((c_up * 8 / 1400).max(3)).min(400); let n_down = ((c_down * 8 / 1400).max(3)).min(400);
+        let mut script: Vec<EwOp> = vec![at(0, Act::Connect(0))];
+        let (n_up, n_down) = if up_dir { (n_up, 1) } else { (1, n_down) };
+        for j in 0..n_up { script.push(after_c(0, 1, Act::CSend(0, (j % 2) as u8, if j % 2 == 0 { SendMode::Reliable } else { SendMode::Unreliable }, 1400))); }
+        for j in 0..n_down { script.push(after_s(0, 1, Act::SSend(0, (j % 2) as u8, if j % 2 == 0 { SendMode::Reliable } else { SendMode::Unreliable }, 1400))); }
+        let rounds = (12_000 / cad) as usize;
+        let mut env = EwEnv::basic(0, rounds);
+        env.fates = DF_NONE; env.deltas = leak_deltas(cad, &[]); env.fair_delta = cad; env.stop_when_done = false;
+        let mut c0 = Chooser::new(vec![], vec![]);
+        let tr = run_ew(&cfg, &script, &env, &mut c0);
+        if crate::lwprops::verbose() { print_ew(&cfg, &tr); }
+        let violations = oracle_c13_ew(&cfg, &tr);
+        let up: usize = tr.wire.iter().filter(|d| d.src == caddr(0)).map(|d| d.bytes.len()).sum(); let down: usize = tr.wire.iter().filter(|d| d.dst == caddr(0)).map(|d| d.bytes.len()).sum();
+        ExecResult { violations, panic: None, outcome: ew_outcome(&tr) ^ (up as u64) << 16 ^ (down as u64) << 40, states: ew_states(&tr), transitions: tr.obs.len() as u64, witnesses: 0,
+                     sample: Some(format!("server send/receive {}/{} B/s, client send/receive {}/{} B/s, steps every {} ms, backlog {}: ceilings {} up, {} down; {} B up and {} B down in 12 s", ss, sr, cs, cr, cad, if up_dir { "client -> server" } else { "server -> client" }, c_up, c_down, up, down)) }
+    };
+    Scenario { name, d: 0, run: Box::new(run) }
+}
+
 pub fn c07(quick: bool) -> PropRun {
     let (own, custom) = c07_parts(quick);
     let scs = assemble(own, custom, quick, "C07", EO_C07 | EO_C08);
